@@ -312,7 +312,7 @@ func newGenState(r *h.Rand, prop string) *genState {
 func Gen(r *h.Rand, tier string, prop string, emit func([]string)) {
 	n, maxOps := 600, 40
 	if tier == "thorough" {
-		n, maxOps = 12000, 70
+		n, maxOps = 2500, 60 // x thorough.seeds; ~4x the quick run per seed
 	}
 	if prop == "c02" {
 		n = n * 2 / 3
